@@ -249,6 +249,31 @@ def copy_then_loss(exe, root, seed, stats):
     a.destroy()
     return [('(%s) %s' % (cfg, problem), '%s\n%s\nhistory:\n%s' % (cfg, problem, hist))] if problem else None
 
+def directed_exchange(exe, root, seed):
+    """two files of one disk with the same size (different bytes and time-stamps) exchanged by rename, another pair with
+    different sizes and equal time-stamps: fix puts bytes AND time-stamps back (a time-stamp may stay unset only when the file
+    that owns the inode in the record has the same size and the same time-stamp)"""
+    rng = e2e.Rng(seed)
+    a = e2e.Arr(root, exe, ndisks=2, nparity=1 + rng.below(2), ncontent=1)
+    s = sim.Sim(a, rng.fork(), weird_names=False)
+    sz = 1 + rng.below(3 * a.block)
+    a.write('d1', 'twin/t0', rng.bytes(sz), s.tick()); a.write('d1', 'twin/t1', rng.bytes(sz), s.tick())
+    t = s.tick()
+    a.write('d1', 'same/u0', rng.bytes(1500), t); a.write('d1', 'same/u1', rng.bytes(2500), t)
+    a.write('d2', 'x', rng.bytes(3000), s.tick())
+    if s.sync().rc != 0:
+        a.destroy(); return None
+    snap = fx.snapshot(a)
+    for r1, r2 in (('twin/t0', 'twin/t1'), ('same/u0', 'same/u1')):
+        p1, p2 = a.path('d1', r1), a.path('d1', r2)
+        os.rename(p1, p1 + '.x'); os.rename(p2, p1); os.rename(p1 + '.x', p2)
+    f = a.cmd('fix')
+    diffs = fx.compare_snapshot(a, snap)
+    a.destroy()
+    if diffs or f.rc != 0:
+        return '[exchanged-names] same-size files (and files with equal time-stamps) of d1 exchanged by rename: after fix %s (fix exit %d)' % (diffs[:1] or 'all restored', f.rc)
+    return None
+
 def main(tier, seed):
     chk = vlib.Check('C01', 'proof', tier, seed)
     chk.assumptions = ['theorems are stripe level (search over parity combinations with hash acceptance + C03 uniqueness); whole-array recovery, time-stamps, links, directories, POSIX effects are decided by the E2E-RECOVER correspondence only (partial)',
@@ -271,6 +296,10 @@ def main(tier, seed):
         return scenario(exe, os.path.join(vlib.scratch(), 'r%d' % i), seed * 100000 + 10000 + i, stats)
     with ThreadPoolExecutor(vlib.NCPU) as ex:
         res = list(ex.map(job, range(n))) + list(ex.map(lambda i: copy_then_loss(exe, os.path.join(vlib.scratch(), 'cl%d' % i), seed * 100000 + 15000 + i, stats), range(24 if tier == 'quick' else 240)))
+    dx = directed_exchange(exe, os.path.join(vlib.scratch(), 'dx'), seed * 100000 + 16000)
+    stats['directed_exchange'] = dx or 'ok'
+    if dx:
+        chk.violation('C01 ' + dx, dx, True, 'exchange')
     k = 0
     for r in res:
         if r:
